@@ -150,6 +150,8 @@ pub struct RefWorld {
   pub subscribe_returned: Vec<u32>,
   /// inner recorders (of window/group_by inner observables) the driver has unsubscribed
   pub inner_unsubscribed: Vec<u32>,
+  /// (recorder to subscribe, fired): subscribed from inside tap's first next side effect
+  pub nest_from_tap: Option<(u32, bool)>,
   pub nest_pipeline: Option<Node>,
   pub root_of_rec: Vec<(u32, usize)>,
 }
@@ -170,6 +172,7 @@ impl RefWorld {
       self_unsubs: vec![],
       subscribe_returned: vec![],
       inner_unsubscribed: vec![],
+      nest_from_tap: None,
       nest_pipeline: None,
       root_of_rec: vec![],
     }
@@ -557,6 +560,12 @@ impl RefWorld {
       },
       Op::Tap => {
         self.tap_log.push(ev.clone());
+        if let (Ev::N(_), Some((rec, false))) = (&ev, self.nest_from_tap) {
+          self.nest_from_tap = Some((rec, true));
+          if let Some(p) = self.nest_pipeline.clone() {
+            self.subscribe_root(&p, rec);
+          }
+        }
         self.emit(id, ev)
       }
       Op::MapToAny | Op::ObserveOnDefault | Op::SubscribeOnDefault | Op::MatDemat | Op::Timestamp | Op::RefCount | Op::ReplayConn | Op::Defer
@@ -817,7 +826,7 @@ impl RefWorld {
         }
       },
       // ------------------------------------------------ higher order (direct)
-      Op::Window(k) => {
+      Op::Window(k) | Op::WindowDeferred(k) => {
         let base = self.root_rec(id).unwrap_or(0);
         match ev {
           N(x) => {
@@ -847,7 +856,7 @@ impl RefWorld {
           }
         }
       }
-      Op::GroupByParity => {
+      Op::GroupByParity | Op::GroupByParityDeferred => {
         let base = self.root_rec(id).unwrap_or(0);
         match ev {
           N(x) => {
